@@ -71,6 +71,6 @@ def queries(tier):
     return qs
 
 MANIFEST = {
-    "text": "Bounded symbolic check of the real tcp.c / sockfd.c / ipc.c framing: for a transfer of ANY size the next request is exactly the remaining suffix of (length prefix, header, body) / the remaining part of the prefix or payload; for ANY 64-bit length and ANY RECVMAXSZ the frame is refused without allocation or exactly `len` bytes are requested into a message of that size; delivery happens once with exactly the bytes carried; handshake accepted iff well-formed. All segmentations follow by induction on the number of transfers.",
-    "note": "Accepted payload lengths <= 8 in the header-complete step (larger ones only in the refusal paths); iov arithmetic of the aio model is checked equivalent to the real nni_aio_iov_advance; kernel I/O stubbed.",
+    "text": "Bounded symbolic check of the real tcp.c / sockfd.c / ipc.c framing (for a transfer of ANY size the next request is exactly the remaining suffix; ANY 64-bit length vs ANY RECVMAXSZ; delivery once with exactly the bytes carried; handshake accepted iff well-formed; all segmentations by induction on the number of transfers), of the real inproc.c hand-off (k-th receive gets the k-th accepted message, header||body unaltered, cancel/close/failed private copy), of the real http_conn.c byte stream under every segmentation of a short stream (what websocket frames are read and written through) and of the websocket fragment writer / reassembly incl. a receiver that arrives in the middle of a fragmented message.",
+    "note": "Accepted payload lengths <= 8 in the header-complete step; iov arithmetic of the aio model is checked equivalent to the real nni_aio_iov_advance; kernel I/O stubbed; http_conn streams of 12-14 bytes in <= 3-4 segments with position models of the head parsers; posix_*conn.c platform readv/sendmsg loops not encoded.",
 }
